@@ -238,7 +238,7 @@ class Recorder:
         self.sets, self.setlist = {}, []
         self.obs, self.obslist = {}, []
         self.descs, self.desclist = {}, []
-        self.edges, self.meta = [], []
+        self.edges, self.meta, self.edgesig = [], [], {}
         from onsager import crystalStars as stars
         crys, chem = S["crys"], S["chem"]
         self.probes = []
@@ -294,9 +294,18 @@ class Recorder:
     def edge(self, objs, must, raised, cands, meta):
         """Record one step: cands = list of alternatives, each a list of descriptor keys per slot."""
         slots = [self.project(o) for o in objs]
-        self.edges.append({"must": bool(must), "raised": bool(raised), "slots": slots,
-                           "cands": [[self.desc(k) for k in alt] for alt in cands]})
-        self.meta.append(meta)
+        cd = [[self.desc(k) for k in alt] for alt in cands]
+        # identical steps (same call, same roles, same outcome for every object) are sent to TLC once
+        sig = (meta["action"], tuple(sorted((meta.get("role") or {}).items())), bool(must), bool(raised),
+               tuple(slots), tuple(map(tuple, cd)))
+        e = self.edgesig.get(sig)
+        if e is None:
+            self.edgesig[sig] = len(self.edges)
+            self.edges.append({"must": bool(must), "raised": bool(raised), "slots": slots, "cands": cd})
+            meta["count"] = 1
+            self.meta.append(meta)
+        else:
+            self.meta[e]["count"] += 1
 
     def case(self, proj_jn):
         maxn = 0
@@ -413,7 +422,7 @@ def replay_world(task):
     except worlds.ProjectionError as ex:
         return {"error": "projection", "what": str(ex), "name": w["name"], "base": base}
     return {"case": rec.case(proj), "meta": rec.meta, "name": w["name"], "base": base,
-            "info": {"edges": nedges, "followups": nfollow, "direct": ndirect, "unvisited_nodes": missing,
+            "info": {"distinct_steps": len(rec.edges), "edges": nedges, "followups": nfollow, "direct": ndirect, "unvisited_nodes": missing,
                      "obs": len(rec.obslist), "sets": len(rec.setlist), "wall": round(time.time() - t0, 2),
                      "njumps": sum(len(c) for c in proj), "nsites": nsites, "G": len(crys.G)}}
 
@@ -508,7 +517,8 @@ def run(ctx):
     replayed = 0
     for ci, r in enumerate(metas):
         case, meta, info = r["case"], r["meta"], r["info"]
-        replayed += len(meta)
+        replayed += sum(m["count"] for m in meta)
+        ctx.evaluations += sum(m["count"] - 1 for m in meta)
         if info["unvisited_nodes"]:
             ctx.info("unvisited_nodes_" + r["name"], info["unvisited_nodes"])
         many = infos.get(ci, {}).get("stars_with_several_states", [])
